@@ -653,6 +653,9 @@ class Interp:
             self._sub_env = None
 
     def getitem(self, v, idx, e):
+        if isinstance(v, Obj) and getattr(v, "tuple_fields", None) and isinstance(idx, Const) and isinstance(idx.v, int) \
+                and -len(v.tuple_fields) <= idx.v < len(v.tuple_fields):
+            return v.attrs.get(v.tuple_fields[idx.v], Const(None))
         if isinstance(e.slice, ast.Slice):
             lo = self.ev(e.slice.lower, Env("?")) if isinstance(e.slice.lower, ast.Constant) else None
             hi = self.ev(e.slice.upper, Env("?")) if isinstance(e.slice.upper, ast.Constant) else None
@@ -763,6 +766,8 @@ class Interp:
         return Seq(self.ev(e.elt, sub), kind, src=("comp", it))
 
     def iter_values(self, it, site):
+        if isinstance(it, Obj) and getattr(it, "tuple_fields", None):
+            return [it.attrs.get(f_, Const(None)) for f_ in it.tuple_fields]
         if isinstance(it, OneShot):
             if it.consumed:
                 return []
@@ -2069,6 +2074,13 @@ class Interp:
                     v = Const(cur.v + rhs.v)
                 except TypeError as te:  # None += 1 raises in the analysed program too
                     raise _Raise(ExcV("builtins.TypeError", {}, [Const(str(te))])) from None
+            elif isinstance(cur, FlagV) and isinstance(rhs, FlagV) and cur.cls == rhs.cls and isinstance(s.op, (ast.BitOr, ast.BitAnd, ast.BitXor)):
+                m_ = cur.members | rhs.members if isinstance(s.op, ast.BitOr) else cur.members & rhs.members if isinstance(s.op, ast.BitAnd) \
+                    else cur.members ^ rhs.members
+                v = FlagV(cur.cls, m_, cur.universe)
+            elif isinstance(cur, Const) and isinstance(rhs, Const) and isinstance(cur.v, (int, float)) and isinstance(rhs.v, (int, float)) \
+                    and isinstance(s.op, (ast.Sub, ast.Mult)):
+                v = Const(cur.v - rhs.v if isinstance(s.op, ast.Sub) else cur.v * rhs.v)
             else:
                 v = Sym(f"({tagof(cur)} {type(s.op).__name__}= {tagof(rhs)})", origin=("binop", type(s.op).__name__, cur, rhs))
             self.assign(s.target, v, env, s)
@@ -2298,6 +2310,8 @@ class Interp:
             return
         if isinstance(t, (ast.Tuple, ast.List)):
             items = None
+            if isinstance(v, Obj) and getattr(v, "tuple_fields", None):
+                v = Tup([v.attrs.get(f_, Const(None)) for f_ in v.tuple_fields])  # a NamedTuple unpacks like the tuple it is
             if isinstance(v, (Tup, Lst)) and len(v.items) == len(t.elts) and not getattr(v, "open", False):
                 items = v.items
             if any(isinstance(x, ast.Starred) for x in t.elts) and isinstance(v, (Tup, Lst)) and not getattr(v, "open", False):
